@@ -144,20 +144,63 @@ def make_case(rng, max_nodes, max_L, exact_only=False):
                                     p_internal_sample=p_int, p_gap=0.1, p_root=0.15, scale=scale))
     within, between = choose_groups(rng, len(d["nodes"]))
     ms2, mt2 = choose_filters(rng, d)
-    return {"desc": d, "within": within, "between": between, "min_span2": ms2, "max_time2": mt2}
+    # application-defined flag bits: a sample stays a sample (flags & 1), a non-sample stays one
+    if rng.random() < 0.5:
+        for nd in d["nodes"]:
+            if rng.random() < 0.4:
+                nd[0] |= rng.choice([1 << 16, 1 << 19, 2, (1 << 31), (1 << 16) | 4])
+    return {"desc": d, "within": within, "between": between, "min_span2": ms2, "max_time2": mt2,
+            "layout": rng.choice(LAYOUTS)}
 
 
 # --------------------------------------------------------------------------------------
 # implementation adapter
 # --------------------------------------------------------------------------------------
 
+LAYOUTS = ("list", "list", "tuple", "int64", "int32", "strided", "reversed", "column")
+
+
+def as_layout(ids, layout, nn):
+    """The same logical id list handed over in different array layouts: python list / tuple, int64
+    (conversion copy), contiguous int32 (no copy needed), and NON-CONTIGUOUS int32 views (every second
+    element, reversed view, a column of a 2-D array) whose neighbouring memory holds other valid ids."""
+    ids = [int(u) for u in ids]
+    if layout == "list":
+        return ids
+    if layout == "tuple":
+        return tuple(ids)
+    import numpy as np
+    n = len(ids)
+    fill = [(u + 1) % max(nn, 1) if u >= 0 else 0 for u in ids]
+    if layout == "int64":
+        return np.array(ids, dtype=np.int64)
+    if layout == "int32":
+        return np.array(ids, dtype=np.int32)
+    if layout == "strided":
+        buf = np.zeros(2 * n, dtype=np.int32)
+        buf[0::2] = ids
+        buf[1::2] = fill
+        return buf[0::2]
+    if layout == "reversed":
+        return np.array(ids[::-1], dtype=np.int32)[::-1]
+    if layout == "column":
+        m = np.zeros((n, 3), dtype=np.int32)
+        m[:, 0] = fill
+        m[:, 1] = ids
+        m[:, 2] = fill
+        return m[:, 1]
+    raise ValueError(layout)
+
+
 def call_args(case):
     s = case["desc"]["scale"]
     kw = {}
+    lay = case.get("layout", "list")
+    nn = len(case["desc"]["nodes"])
     if case["within"] is not None:
-        kw["within"] = list(case["within"])
+        kw["within"] = as_layout(case["within"], lay, nn)
     if case["between"] is not None:
-        kw["between"] = [list(x) for x in case["between"]]
+        kw["between"] = [as_layout(x, lay, nn) for x in case["between"]]
     if "min_span_f" in case:
         kw["min_span"] = case["min_span_f"]
     elif case["min_span2"] is not None:
@@ -256,6 +299,15 @@ def observe_case(case):
             except Exception as e:
                 runs[name] = {"error": exc(e)}
         out[api] = runs
+    if case["within"] is None and case["between"] is None:
+        # the default call is "all samples": compare with the explicit list, whatever other flag bits are set
+        try:
+            k = dict(kw)
+            k["within"] = ts.samples()
+            ex = read_result(ts.ibd_segments(store_segments=True, **k), lat, probe)
+            out["default_equals_samples"] = ex == out["ts"]["FT"]
+        except Exception as e:
+            out["default_equals_samples"] = exc(e)
     out["api_equal"] = out["ts"] == out["tc"]
     out["r"] = out.pop("ts")
     if out["api_equal"]:
@@ -433,6 +485,9 @@ def oracle_case(case, obs):
         return [("generator-invalid-ts", obs["invalid"])]
     if not obs["api_equal"]:
         out.append(("ts-vs-tables", "TreeSequence.ibd_segments and TableCollection.ibd_segments differ"))
+    if obs.get("default_equals_samples", True) is not True:
+        out.append(("default-vs-samples", "ibd_segments() differs from ibd_segments(within=ts.samples()): %r"
+                    % (obs["default_equals_samples"],)))
     exp = expected(case, strict=True)
     exp_incl = expected(case, strict=False)
     boundary = exp != exp_incl
@@ -501,7 +556,7 @@ def coq_case(case, obs):
     mt2 = case["max_time2"]
     mt = "None" if mt2 in (None, "inf") else "(Some %s)" % cz(mt2)
     return "(mkCase %s %s %s %s %s %s %s)" % (
-        cz(d["L"]), clist([t for _f, t in d["nodes"]]), clist([f & 1 for f, _t in d["nodes"]]),
+        cz(d["L"]), clist([t for _f, t in d["nodes"]]), clist([f for f, _t in d["nodes"]]),
         edges, grp, cz(case["min_span2"]), mt)
 
 
@@ -581,6 +636,8 @@ class IbdBase(Family):
             "unsquashed_adjacent_edges": unsq,
             "internal_samples": any(f & 1 and t > 0 for f, t in d["nodes"]),
             "scale_exact": is_exact(d["scale"]),
+            "layout": case.get("layout", "list"),
+            "extra_flag_bits": any(f & ~1 for f, _t in d["nodes"]),
         }
 
     def shrink(self, case):
@@ -661,7 +718,11 @@ class IbdShapes(IbdBase):
             for (w, b), ms2, mt2 in itertools.product(groups, mss, mts):
                 if tier == "quick" and rng.random() < 0.6:
                     continue
-                yield {"desc": d, "within": w, "between": b, "min_span2": ms2, "max_time2": mt2}
+                dd = d
+                if rng.random() < 0.3:
+                    dd = dict(d, nodes=[[f | rng.choice([0, 1 << 16, 1 << 19, 2]), t] for f, t in d["nodes"]])
+                yield {"desc": dd, "within": w, "between": b, "min_span2": ms2, "max_time2": mt2,
+                       "layout": rng.choice(LAYOUTS)}
 
 
 class IbdLarge(IbdBase):
@@ -722,12 +783,21 @@ class IbdErrors(Family):
         desc = full(case)
         tc = gen_ts.build_tables(desc)
         out = {}
+        def snap(o):
+            r = o.ibd_segments(store_segments=True)
+            return sorted([int(a), int(b), float(x.left), float(x.right), int(x.node)] for (a, b), sl in r.items() for x in sl)
+        fresh = snap(gen_ts.build_tables(desc).tree_sequence())
         for api, obj in (("ts", tc.tree_sequence()), ("tc", tc)):
             try:
                 r = obj.ibd_segments(store_segments=True, **call_args(case))
                 out[api] = {"accepted": int(r.num_segments)}
             except Exception as e:
                 out[api] = exc(e)
+            # error, then a valid call on the SAME object = the result on a fresh object
+            try:
+                out[api + "_reuse_ok"] = snap(obj) == fresh
+            except Exception as e:
+                out[api + "_reuse_ok"] = exc(e)
         return out
 
     def oracle(self, case, obs):
@@ -735,6 +805,9 @@ class IbdErrors(Family):
         for api in ("ts", "tc"):
             if isinstance(obs[api], dict):
                 out.append(("accepted-" + case["bad"], "%s.ibd_segments accepted %s" % (api, case["bad"])))
+            if obs.get(api + "_reuse_ok", True) is not True:
+                out.append(("error-then-reuse", "%s: valid call after the rejected one differs from a fresh object: %r"
+                            % (api, obs[api + "_reuse_ok"])))
         return out
 
     def describe(self, case, obs):
@@ -758,7 +831,8 @@ class IbdBigNodes(IbdBase):
             root, mid = N - 1, N - 2
             L = rng.randrange(2, 6)
             cut = rng.randrange(1, L)
-            special = {str(u): [1 if (k % 3 or i % 2 == 0) else 0, 0] for i, u in enumerate(ids)}
+            special = {str(u): [(1 if (k % 3 or i % 2 == 0) else 0) | rng.choice([0, 0, 1 << 16, 1 << 19]), 0]
+                       for i, u in enumerate(ids)}
             special[str(mid)] = [rng.randrange(2), 1]
             special[str(root)] = [0, 2]
             edges = []
@@ -775,7 +849,7 @@ class IbdBigNodes(IbdBase):
             elif mode == 2:
                 between = [ids[0::2], ids[1::2] + [mid]]
             yield {"big": {"N": N, "special": special}, "L": L, "scale": rng.choice([1, 0.5, 2.5]),
-                   "edges": edges, "within": within, "between": between,
+                   "edges": edges, "within": within, "between": between, "layout": rng.choice(LAYOUTS),
                    "min_span2": rng.choice([0, 0, 1, 2]), "max_time2": rng.choice([None, None, 3, 4])}
 
     @staticmethod
@@ -785,7 +859,7 @@ class IbdBigNodes(IbdBase):
         nodes = list(nodes)
         for u, ft in case["big"]["special"].items():
             nodes[int(u)] = list(ft)
-        c = {k: case[k] for k in ("within", "between", "min_span2", "max_time2")}
+        c = {k: case[k] for k in ("within", "between", "min_span2", "max_time2", "layout")}
         c["desc"] = {"L": case["L"], "scale": case["scale"], "nodes": nodes, "edges": case["edges"]}
         return c
 
